@@ -94,9 +94,17 @@ Lemma post_loop_S f e ts : post_loop tbl (S f) e ts =
         | (i, TRB :: r') => post_loop tbl f (Idx e i) r'
         | _ => Err
         end)
-  | TDot :: TId m :: r => if starts_lp r then Err else post_loop tbl f (Mem e m) r
+  | TDot :: TId m :: r =>
+      match r with
+      | TLP :: r1 => bind (p_args tbl f true r1) (fun ar => let (args, r2) := ar in post_loop tbl f (MCall false e m args) r2)
+      | _ => post_loop tbl f (Mem e m) r
+      end
   | TDot :: _ => Err
-  | TArrow :: TId m :: r => if starts_lp r then Err else post_loop tbl f (Arrow e m) r
+  | TArrow :: TId m :: r =>
+      match r with
+      | TLP :: r1 => bind (p_args tbl f true r1) (fun ar => let (args, r2) := ar in post_loop tbl f (MCall true e m args) r2)
+      | _ => post_loop tbl f (Arrow e m) r
+      end
   | TArrow :: _ => Err
   | TInc :: r => Ok (Post true e, r)
   | TDec :: r => Ok (Post false e, r)
@@ -108,22 +116,43 @@ Proof. reflexivity. Qed.
 Lemma p_primary_S f ts : p_primary tbl (S f) ts =
   match ts with
   | TNum n :: r => Ok (Num n, r)
-  | TId x :: TOp LtO :: r1 =>
-      if generic_scan_b scan_bound 1 r1 then
-        match targs_list (S (length r1)) 0 r1 with
-        | Some (n, TLP :: r2) =>
-            bind (p_args tbl f r2) (fun ar =>
-              let (args, r3) := ar in
-              if starts_lp r3 then Err else Ok (Generic n (Call x args), r3))
-        | Some (_, r2) => Ok (Var x, r2)
-        | None => Err
+  | TId x :: r =>
+      if is_sizeof x && starts_lp r then
+        match r with
+        | TLP :: r1 =>
+            if sizeof_type_start r1 then
+              match sizeof_type r1 with
+              | TRP :: r2 => Ok (SizeofT, r2)
+              | _ => Err
+              end
+            else
+              bind (p_assign tbl f r1) (fun er =>
+                match er with
+                | (e, TRP :: r2) => Ok (Call x [e], r2)
+                | _ => Err
+                end)
+        | _ => Err
         end
-      else Ok (Var x, TOp LtO :: r1)
-  | TId x :: TLP :: r1 =>
-      bind (p_args tbl f r1) (fun ar =>
-        let (args, r2) := ar in
-        if starts_lp r2 then Err else Ok (Call x args, r2))
-  | TId x :: r => Ok (Var x, r)
+      else
+        match name_skip x r with
+        | None => Err
+        | Some (TOp LtO :: r1) =>
+            if generic_scan_b scan_bound 1 r1 then
+              match targs_list (S (length r1)) 0 r1 with
+              | Some (n, TLP :: r2) =>
+                  bind (p_args tbl f false r2) (fun ar =>
+                    let (args, r3) := ar in
+                    if starts_lp r3 then Err else Ok (Generic n (Call x args), r3))
+              | Some (_, r2) => Ok (Var x, r2)
+              | None => Err
+              end
+            else Ok (Var x, TOp LtO :: r1)
+        | Some (TLP :: r1) =>
+            bind (p_args tbl f false r1) (fun ar =>
+              let (args, r2) := ar in
+              if starts_lp r2 then Err else Ok (Call x args, r2))
+        | Some r0 => Ok (Var x, r0)
+        end
   | TLP :: r =>
       match cast_type r with
       | Some (ty, r') => bind (p_unary tbl f r') (fun ar => let (a, r2) := ar in Ok (Cast ty a, r2))
@@ -138,7 +167,7 @@ Lemma p_primary_S f ts : p_primary tbl (S f) ts =
   end.
 Proof. reflexivity. Qed.
 
-Lemma p_args_S f ts : p_args tbl (S f) ts =
+Lemma p_args_S f trail ts : p_args tbl (S f) trail ts =
   match ts with
   | TRP :: r => Ok ([], r)
   | _ =>
@@ -146,8 +175,8 @@ Lemma p_args_S f ts : p_args tbl (S f) ts =
         match ar with
         | (a, TComma :: r) =>
             match r with
-            | TRP :: _ => Err
-            | _ => bind (p_args tbl f r) (fun asr => let (l, r') := asr in Ok (a :: l, r'))
+            | TRP :: r' => if trail then Ok ([a], r') else Err
+            | _ => bind (p_args tbl f trail r) (fun asr => let (l, r') := asr in Ok (a :: l, r'))
             end
         | (a, TRP :: r) => Ok ([a], r)
         | _ => Err
@@ -168,7 +197,7 @@ Lemma mono : forall f,
   (forall ts f', f <= f' -> rle (p_unary tbl f ts) (p_unary tbl f' ts)) /\
   (forall e ts f', f <= f' -> rle (post_loop tbl f e ts) (post_loop tbl f' e ts)) /\
   (forall ts f', f <= f' -> rle (p_primary tbl f ts) (p_primary tbl f' ts)) /\
-  (forall ts f', f <= f' -> rle (p_args tbl f ts) (p_args tbl f' ts)).
+  (forall trail ts f', f <= f' -> rle (p_args tbl f trail ts) (p_args tbl f' trail ts)).
 Proof.
   induction f as [|f IH]; [repeat split; intros; left; reflexivity|].
   destruct IH as (IHa & IHt & IHb & IHl & IHu & IHp & IHpr & IHar).
@@ -210,21 +239,30 @@ Proof.
     + apply rle_bind; [apply IHa; exact Hle|]. intros [i r']. destruct r' as [|t' r']; [apply rle_refl|].
       destruct t'; try apply rle_refl. apply IHp; exact Hle.
     + destruct r as [|t r]; [apply rle_refl|]. destruct t; try apply rle_refl.
-      destruct (starts_lp r); [apply rle_refl|apply IHp; exact Hle].
+      destruct r as [|t r]; [apply IHp; exact Hle|].
+      destruct t; try (apply IHp; exact Hle).
+      apply rle_bind; [apply IHar; exact Hle|]. intros [args r2]. apply IHp; exact Hle.
     + destruct r as [|t r]; [apply rle_refl|]. destruct t; try apply rle_refl.
-      destruct (starts_lp r); [apply rle_refl|apply IHp; exact Hle].
+      destruct r as [|t r]; [apply IHp; exact Hle|].
+      destruct t; try (apply IHp; exact Hle).
+      apply rle_bind; [apply IHar; exact Hle|]. intros [args r2]. apply IHp; exact Hle.
   - (* p_primary *)
     rewrite !p_primary_S. destruct ts as [|t r]; [apply rle_refl|].
     destruct t; try apply rle_refl.
     + (* TId *)
-      destruct r as [|t r]; [apply rle_refl|].
-      destruct t; try apply rle_refl.
-      * destruct o; try apply rle_refl.
-        destruct (generic_scan_b scan_bound 1 r); [|apply rle_refl].
-        destruct (targs_list (S (length r)) 0 r) as [[n r2]|]; [|apply rle_refl].
-        destruct r2 as [|t2 r2]; [apply rle_refl|]. destruct t2; try apply rle_refl.
-        apply rle_bind; [apply IHar; exact Hle|]. intros [args r3]. apply rle_refl.
-      * apply rle_bind; [apply IHar; exact Hle|]. intros [args r3]. apply rle_refl.
+      destruct (is_sizeof x && starts_lp r).
+      * destruct r as [|t r]; [apply rle_refl|]. destruct t; try apply rle_refl.
+        destruct (sizeof_type_start r); [apply rle_refl|].
+        apply rle_bind; [apply IHa; exact Hle|]. intros [e r']. apply rle_refl.
+      * destruct (name_skip x r) as [r0|]; [|apply rle_refl].
+        destruct r0 as [|t r0]; [apply rle_refl|].
+        destruct t; try apply rle_refl.
+        -- destruct o; try apply rle_refl.
+           destruct (generic_scan_b scan_bound 1 r0); [|apply rle_refl].
+           destruct (targs_list (S (length r0)) 0 r0) as [[n r2]|]; [|apply rle_refl].
+           destruct r2 as [|t2 r2]; [apply rle_refl|]. destruct t2; try apply rle_refl.
+           apply rle_bind; [apply IHar; exact Hle|]. intros [args r3]. apply rle_refl.
+        -- apply rle_bind; [apply IHar; exact Hle|]. intros [args r3]. apply rle_refl.
     + (* TLP *)
       destruct (cast_type r) as [[ty r']|].
       * apply rle_bind; [apply IHu; exact Hle|]. intros [a r2]. apply rle_refl.
